@@ -25,8 +25,8 @@ CHECKS = {
     "C13": ("flush never forgets a running task or one inside its callbacks, forgets everything finished before the call, flush(True) never raises, no end callback lost; overlapping flushes with slow callbacks. The T4 defect found here is repaired (fix: 0a23838).", "5 C13"),
     "C14": ("stop(n) for unbounded n / stop_all(): returned ids == the min(n, running) newest running ids descending, exactly those cancelled once, others untouched, over histories with gaps.", "5 C14"),
     "C15": ("pool_size getter/setter: negative value rejected with nothing changed from every state; reads/assignments with no slot in use fully checked (old/new unbounded); reads/assignments with tasks in flight are the open findings T5/T6.", "5 C15"),
-    "C17": ("Reduced scope (namespace -> call -> reply): for every public member of both pool classes the session's reply and the served pool equal a twin driven by the direct call, ints symbolic. Text->namespace (argparse) is outside the claim. The T7 defect found here is repaired (fix: de325bc).", "5 C17"),
-    "C18": ("Reduced scope (listen-loop kernel with a contract-obeying stub parser): one reply per line, own output only (stale/foreign text), waiting commands answered after their wait, no exception leaves listen(), malformed lines leave the pool unchanged, two sessions. The real argparse text level is outside the claim.", "5 C18"),
+    "C17": ("Reduced scope (namespace -> call -> reply, plus the argument-conversion wrappers): for every public member of both pool classes, on open and on locked pools, the session's reply and the served pool equal a twin driven by the direct call (ints symbolic); conversion wrappers behave like a fresh cls(arg). argparse's own tokenising/dispatch is outside the claim. The T7 defect found here is repaired (fix: de325bc).", "5 C17, 10.5"),
+    "C18": ("Reduced scope (listen-loop kernel with a contract-obeying stub parser that keeps the stream it was built with): one reply per line, own output only (stale/foreign/long text), waiting commands answered after their wait, no exception leaves listen(), malformed lines leave the pool unchanged, two sessions; plus a symbolic str line (len <= 3/4) through the session's own decode/strip/split. The real argparse text level is outside the claim.", "5 C18, 10.5"),
     "C20": ("Queue context manager: a fresh join() completes iff puts == exited blocks after every step of bounded producer/consumer/failure/cancel programs, maxsize unbounded symbolic, no ValueError, each item to one block.", "5 C20"),
 }
 NA = {
